@@ -4,6 +4,7 @@ import (
 	"crypto/tls"
 	"net/http"
 	"net/http/httptest"
+	"runtime"
 	"time"
 
 	connect "github.com/bufbuild/connect-go"
@@ -18,6 +19,12 @@ type RealServer struct {
 }
 
 func NewRealServer(h http.Handler, h2 bool) *RealServer {
+	// Workers run with GOMAXPROCS=1 (deterministic exploration is faster that
+	// way); families on the real stack want real parallelism.  Never lowered
+	// again: exploration under the scheduler is unaffected by it.
+	if runtime.GOMAXPROCS(0) < 4 {
+		runtime.GOMAXPROCS(4)
+	}
 	mux := http.NewServeMux()
 	mux.Handle(Procedure, h)
 	srv := httptest.NewUnstartedServer(mux)
